@@ -20,6 +20,7 @@ def tables : List (String → List String → Option String) := []
 def modes : List Mode := []
   ++ [Drv.CratesV1.mode]
   ++ [Drv.CratesV1Oracle.mode]
+  ++ [Drv.CratesV1Explore.mode]
 
 def dispatch (line : String) : String :=
   match tokens line with
